@@ -416,7 +416,7 @@ def enum_global():
     # add_peer with / without / with a broken export policy; duplicate peer; per-peer add: accumulates, duplicates, import, unknown peer / policy
     ops = base + [[20, 4, []], [20, 5, [[1, [2]]]], [20, 6, [[2, [9]]]], [20, 6, [[2, []]]], [20, 4, [[1, [1]]]], [24],
                   [23, 4] + route, [23, 5] + route, [23, 6] + route, [23, 7] + route,
-                  [21, 4, 1, 1, [1]], [21, 4, 1, 2, [1]], [21, 4, 1, 2, [2, 3]], [21, 4, 0, 1, [3]], [21, 7, 1, 1, [1]], [21, 4, 1, 1, [9]], [21, 4, 1, 1, []], [24], [23, 4] + route,
+                  [21, 4, 1, 1, [1]], [21, 4, 0, 1, [3]], [21, 4, 0, 2, [2]], [24], [21, 4, 1, 2, [1]], [21, 4, 1, 2, [2, 3]], [21, 4, 0, 1, [3]], [21, 7, 1, 1, [1]], [21, 4, 1, 1, [9]], [21, 4, 1, 1, []], [24], [23, 4] + route,
                   [7, 0, 1, 2, [3]], [23, 4] + route, [23, 6] + route, [23, 7] + route,
                   # every referenced policy is protected, for add and for delete (all / partial / preserve)
                   [6, 1, 0, 1, []], [6, 2, 1, 0, [2]], [6, 3, 0, 1, []], [5, 1, [2]], [5, 2, [1]], [5, 3, [1]], [4, 1, 1, [], [], NOACT()], [3, 2, [[6, 0, 0]], [], NOACT()], [24],
